@@ -23,6 +23,16 @@ pub struct CheckDef {
     pub nshards: usize,
 }
 
+impl CheckDef {
+    /// an additional shard (index == nshards) that the thorough tier runs next to the others
+    pub fn extra_thorough(&self) -> Option<ShardFn> {
+        match self.meta.id {
+            "C01" | "C05" | "C07" | "C08" => Some(crate::fuzzshard::fuzz_shard),
+            _ => None,
+        }
+    }
+}
+
 pub fn all() -> Vec<CheckDef> {
     vec![c01::def(), c02::def(), c03::def(), c04::def(), c05::def(), c06::def(), c07::def(), c08::def(), c09::def(), c10::def(), c11::def(), c12::def(), c13::def(), c14::def(), c15::def(), c16::def()]
 }
